@@ -1624,6 +1624,9 @@ def is_trivial(f):
 
 def call_function(eng, f, recv, args, kwargs, st, recv_static=None, via_super=False, exact=False):
     c = eng.reg.contracts.get(f.qual)
+    alt = eng.reg.interface_calls.get((getattr(getattr(eng, "func", None), "qual", None), f.qual))
+    if alt is not None and not eng.spec:
+        c = eng.reg.contracts[alt]
     if eng.reg.variants and any(q == f.qual for (q, _c) in eng.reg.variants):
         on_self = recv is not None and "self" in st.env and st.env["self"].t is not None and recv.t is not None \
             and recv.t.eq(st.env["self"].t)
